@@ -1,5 +1,61 @@
 CONFIG = dict(
         level='proof',
         streams=[dict(harness='c18', driver='c18')],
-        rule='TODO',
+        rule='pairs (r1, r2, c1, c2) given to the real MergeResults of DevsAnalysis, CouplesAnalysis, BurndownAnalysis and to '
+             'CommonAnalysisResult.Merge. Developer identity lists: all pairs of lists over the parts {ann, bob, a@x.io} (every partial '
+             'partition, second list also reversed) plus random pairs in three modes (identical-or-disjoint identities; independent partitions '
+             '= sharing only a name / only an e-mail / bridging two identities; sub- and supersets of single identities); file lists partially '
+             'overlapping, disjoint, permuted; begin dates up to 40 days apart, tick sizes 1 ns .. 7 d, equal and unequal (error), 0 and negative '
+             '(malformed); malformed streams with out-of-range developer/file indices, short line lists, over-long matrices, ragged interaction '
+             'matrices, missing people histories (panics, also inside worker goroutines: run in a child process). kind = analysis + identity '
+             'class (lit: every identity spelled like its merged identity; idmerge: identities merge, one per result; bridge: two identities '
+             'of one result merge). Non-trivial = both results have developers (and ticks / files); distinct = distinct input.',
+        exhaustive_note='identity lists: all 15 x 15 pairs of partial partitions of {ann, bob, a@x.io} (second list also reversed), each with '
+                        'generated data, for the three analyses',
+        assumptions=[
+            'the identity table (people: input identity -> {Final, First, Second}, merged list) is taken from the real '
+            'identity.MergeReversedDictsIdentities (same arguments, the function is deterministic) and given to the model as data; the '
+            'theorems about developer statistics and couples hold for EVERY table; the burndown theorems assume wf_table_b (every input '
+            'identity has an entry, Final inside the merged list, First/Second point back at positions holding that very identity, lists '
+            'without duplicates, every merged identity has a member), which the driver evaluates on the table of every real call '
+            '(counter table_not_wf, 0 in every run so far); the correctness of that table is property C16',
+            'BurndownAnalysis.mergeMatrices (float resampling) is an opaque function of the two selected matrices (Section variable mergeM); '
+            'the replay observes WHICH histories were selected by giving every input history the shape [[2^k]] with sampling = granularity '
+            '= 1, for which mergeMatrices adds the values into its last row (code_merge)',
+            'Go int/int64 sums are unbounded Z in the model (no input comes near 2^63); time.Duration arithmetic is exact in the exercised '
+            'range (begin dates between 1970 and 2106, tick sizes below 2^62 ns); FloorTime rounds to multiples of the tick size counted '
+            'from Go\'s zero time',
+            'Go maps are association lists; iteration order of an input map = order of the list (the harness gives sorted order, the '
+            'theorems hold for every order and do not even need distinct keys in the inputs); RunTimePerItem is reduced to its key set '
+            '(float values are not compared)',
+            'file lists of couples results have no duplicate names (with duplicates in the first list MergeReversedDictsLiteral depends '
+            'on map iteration order or panics)'],
+        trusted_base=[
+            'hand-written Gallina model coq/theories/Combine/Model.v of the three MergeResults, CommonAnalysisResult.Merge and '
+            'MergeReversedDictsLiteral, tied to the code by the replay of every harness case (zero mismatches)',
+            'hook file /repo/leaves/verif_c18.go (constructors/getters for unexported result fields, re-export of the two identity merges)'],
+        level_text='Coq proof over ALL pairs of results and ALL identity tables, about the executable model that is replayed against the Go code: '
+                   'developer statistics - every figure per aligned tick and merged developer and every total (commits, added/removed/changed, '
+                   'per language) is the sum of the inputs, tick offsets are the whole ticks between the floored begin dates; couples - file list '
+                   '= duplicate-free union, line counts add up by file name, files/people matrix cells are the sums of the input cells '
+                   're-indexed by file name / merged identity, PeopleFiles = sorted union (MergeReversedDictsLiteral is modelled and proved); '
+                   'common summary - min begin, max end, sums, panic condition. Burndown: the clause "computed from exactly the input '
+                   'developers of that merged identity" is FALSE of the current code (finding F8): proved correct when every input identity is '
+                   'spelled like its merged identity (histories: C18_people_selection, interaction rows: C18_interaction_rows), the exact '
+                   'failure condition is proved (C18_people_selection_only_if) and refuted by vm_compute on the table of a real call '
+                   '(C18_people_selection_refuted), reproduced on the Go code by generator kinds bd-idmerge / bd-bridge. 15 theorems + 4 '
+                   'examples, all closed under the global context.',
+        level_note='Trusted: correspondence Model.v <-> Go (tested, not proved: ~16 k pairs per quick run incl. exhaustive identity-list pairs and '
+                   'malformed inputs, every field of the merged results compared after sorting map keys), Coq kernel, extraction, OCaml driver, '
+                   'Go harness, the verif hook. Modelled rather than verified: the identity table (argument + checked well-formedness, C16 owns '
+                   'its correctness), mergeMatrices (opaque; only the selection of its arguments is observed, through recognisable 1x1 '
+                   'histories), Go maps as association lists, unbounded integers, time rounding as integer floor division. Not covered: '
+                   'FileHistories/FileOwnership (the code does not merge them), the float values of RunTimePerItem, the people-matrix '
+                   '"extend" branch (len(bar2.PeopleMatrix) == 0) has correspondence only, definedness (absence of panics) is proved for devs '
+                   'and common only. OPEN FINDING F8: until the coordinator fixes burndown MergeResults or lists it in known_findings.json the '
+                   'check reports the PROPFAIL of kinds bd-idmerge/bd-bridge.',
+        technique='machine-checked proof in Coq 8.16 (fold invariants over association-list sums, characterisation of the literal table merge, '
+                  'selection exactness under an abstract table interface) + model/implementation correspondence replay through the extracted '
+                  'OCaml model + extracted specification oracles (filter-and-sum over the inputs) judging the real outputs + exhaustive '
+                  'small-scope enumeration of identity-list pairs',
     )
